@@ -86,7 +86,7 @@ func genSqlCfg(r *rng, prop string, tier string) SqlCfg {
 	case "C10":
 		n := 1 + r.Intn(4)
 		for i := 0; i < n; i++ {
-			c.LateTables = append(c.LateTables, TableSpec{Name: fmt.Sprintf("u%d", i), Cols: genCols(r, true), Wide: []int{6, 30, 120}[r.Intn(3)]})
+			c.LateTables = append(c.LateTables, TableSpec{Name: fmt.Sprintf([]string{"u%d", "u%d", "U%d", "Ux%d"}[r.Intn(4)], i), Cols: genCols(r, true), Wide: []int{6, 30, 120}[r.Intn(3)]})
 		}
 		c.PDDL = 0.1
 		c.PRestart = 0.08
@@ -1074,43 +1074,62 @@ func (sr *SqlRun) createTable(ts TableSpec, opIdx int) bool {
 
 // catalogCheck (C10): every created table reachable by name, own schema, distinct ids and first pages.
 func (sr *SqlRun) catalogCheck(opIdx int, where string) {
+	var specs []*TableSpec
+	for i := range sr.created {
+		specs = append(specs, &sr.created[i])
+	}
+	for _, cv := range catalogViolations(sr.S, specs, where) {
+		sr.viol("C10", cv[0], cv[1], opIdx)
+	}
+}
+
+// catalogViolations: every created table is reachable by name with its schema, and no two tables
+// share an object id or a first page. Returns (class, detail) pairs.
+func catalogViolations(su *SUT, specs []*TableSpec, where string) (out [][2]string) {
+	defer func() {
+		if r := recover(); r != nil {
+			out = append(out, [2]string{"catalog-panic", fmt.Sprintf("%s: %v", where, r)})
+		}
+	}()
+	viol := func(class, detail string) { out = append(out, [2]string{class, detail}) }
 	oids := map[uint32]string{}
 	firsts := map[int32]string{}
-	for _, ts := range sr.created {
-		tm := sr.S.Cat.GetTableByName(ts.Name)
+	for _, ts := range specs {
+		tm := su.Cat.GetTableByName(ts.Name)
 		if tm == nil {
-			sr.viol("C10", "table-missing", fmt.Sprintf("%s: table %s is not reachable by name", where, ts.Name), opIdx)
+			viol("table-missing", fmt.Sprintf("%s: table %s is not reachable by name", where, ts.Name))
 			continue
 		}
 		sc := tm.Schema()
 		if int(sc.GetColumnCount()) != len(ts.Cols) {
-			sr.viol("C10", "schema-changed", fmt.Sprintf("%s: table %s has %d columns, created with %d", where, ts.Name, sc.GetColumnCount(), len(ts.Cols)), opIdx)
+			viol("schema-changed", fmt.Sprintf("%s: table %s has %d columns, created with %d", where, ts.Name, sc.GetColumnCount(), len(ts.Cols)))
 			continue
 		}
 		for i, c := range ts.Cols {
 			cn := sc.GetColumn(uint32(i)).GetColumnName()
 			if !strings.HasSuffix(cn, "."+c.Name) && cn != c.Name {
-				sr.viol("C10", "schema-changed", fmt.Sprintf("%s: table %s column %d is %q, created as %q", where, ts.Name, i, cn, c.Name), opIdx)
+				viol("schema-changed", fmt.Sprintf("%s: table %s column %d is %q, created as %q", where, ts.Name, i, cn, c.Name))
 			}
 			wantT := map[ColType]types.TypeID{TInt: types.Integer, TFloat: types.Float, TVarchar: types.Varchar, TBool: types.Boolean}[c.Type]
 			if sc.GetColumn(uint32(i)).GetType() != wantT {
-				sr.viol("C10", "schema-changed", fmt.Sprintf("%s: table %s column %s changed type", where, ts.Name, c.Name), opIdx)
+				viol("schema-changed", fmt.Sprintf("%s: table %s column %s changed type", where, ts.Name, c.Name))
 			}
 		}
 		if o, dup := oids[tm.OID()]; dup {
-			sr.viol("C10", "identifier-shared", fmt.Sprintf("%s: tables %s and %s share object id %d", where, o, ts.Name, tm.OID()), opIdx)
+			viol("identifier-shared", fmt.Sprintf("%s: tables %s and %s share object id %d", where, o, ts.Name, tm.OID()))
 		}
 		oids[tm.OID()] = ts.Name
 		fp := int32(tm.Table().GetFirstPageID())
 		if o, dup := firsts[fp]; dup {
-			sr.viol("C10", "storage-shared", fmt.Sprintf("%s: tables %s and %s share first page %d", where, o, ts.Name, fp), opIdx)
+			viol("storage-shared", fmt.Sprintf("%s: tables %s and %s share first page %d", where, o, ts.Name, fp))
 		}
 		firsts[fp] = ts.Name
 		// by-id lookup must return the same table
-		if t2 := sr.S.Cat.GetTableByOID(tm.OID()); t2 == nil || *t2.GetTableName() != ts.Name {
-			sr.viol("C10", "identifier-shared", fmt.Sprintf("%s: object id %d of table %s resolves to another table", where, tm.OID(), ts.Name), opIdx)
+		if t2 := su.Cat.GetTableByOID(tm.OID()); t2 == nil || !strings.EqualFold(*t2.GetTableName(), ts.Name) {
+			viol("identifier-shared", fmt.Sprintf("%s: object id %d of table %s resolves to another table", where, tm.OID(), ts.Name))
 		}
 	}
+	return out
 }
 
 // quiescentChecks: run when no transaction is open.
